@@ -309,6 +309,37 @@ def check_slash_plumbing(rep, rule):
         cfg_of(bi).must_pass(cfg_of(bi).nodes_of_all(sm), cfg_of(bi).entry, cfg_of(bi).nodes_of(stmt_of(route, cp[0])))
     rep.check(rule, fkey(bi, 'pattern compiled with the mode'), ok, 'the bound pattern is compiled for the selected mode' if ok else
               'the bound pattern is not compiled with self.slash_mode', route, cp[0] if cp else bi.node)
+    check_bound_regex(rep, rule)
+    _rest_of_slash_plumbing(rep, rule, bi, sm)
+
+
+def check_bound_regex(rep, rule):
+    """... on every path, and it is the only source of the regex / converters the bound route matches with
+    (re-using an already bound route's regex keeps the *old* application's slash mode in the matcher)."""
+    repo = rep.repo
+    route = repo.mod(ROUTE)
+    bi = route.func('BoundRoute.__init__')
+    cp = [c for c in walk_body(bi.node) if isinstance(c, ast.Call) and call_name(c) == '_compile_path_pattern']
+    bcfg = cfg_of(bi)
+    writers = [s for s in stmts_of(bi.node) if isinstance(s, ast.Assign) and
+               any(norm(x) in ('self.regex', 'self.converters') for t in s.targets for x in (t.elts if isinstance(t, ast.Tuple) else [t]))]
+    ok = len(cp) == 1 and bcfg.must_pass(bcfg.nodes_of(stmt_of(route, cp[0])), bcfg.entry, bcfg.exit, normal_only=True) and \
+        len(writers) == 1 and writers[0] is stmt_of(route, cp[0])
+    rep.check(rule, fkey(bi, 'regex always recompiled'), ok,
+              'self.regex / self.converters come from compiling the prefixed pattern for this binding\'s mode, on every path' if ok else
+              'a bound route can take its regex / converters from somewhere else than _compile_path_pattern(self.pattern, self.slash_mode) '
+              '(e.g. re-used from the route being re-bound): pattern, prefix or slash mode of the matcher then disagree with the binding',
+              route, writers[0] if writers else bi.node)
+    mpf = route.func('BoundRoute.match_path')
+    uses = [n for n in walk_body(mpf.node) if isinstance(n, ast.Attribute) and isinstance(n.value, ast.Name) and n.value.id == 'self']
+    ok = {'regex', 'converters'} <= set(n.attr for n in uses) and not any(n.attr.startswith('_') for n in uses)
+    rep.check(rule, fkey(mpf, 'matches with the compiled regex'), ok, 'match_path uses exactly self.regex and self.converters' if ok else
+              'match_path matches with %s' % sorted(set(n.attr for n in uses)), route, mpf.node)
+
+
+def _rest_of_slash_plumbing(rep, rule, bi, sm):
+    repo = rep.repo
+    app, route = repo.mod(APP), repo.mod(ROUTE)
     popped, written = bind_kwarg_agreement(rep, rule)
     d = popped.get('inherit_slashes')
     ok = isinstance(d, ast.Constant) and d.value is True
